@@ -1,6 +1,7 @@
 package main
 
 import (
+	"encoding/json"
 	"flag"
 	"fmt"
 	"os"
@@ -25,6 +26,8 @@ func main() {
 		cmdVerify(os.Args[2:])
 	case "check":
 		cmdCheck(os.Args[2:])
+	case "replay":
+		cmdReplay(os.Args[2:])
 	default:
 		fmt.Fprintln(os.Stderr, "unknown command", os.Args[1])
 		os.Exit(2)
@@ -262,4 +265,63 @@ func aggregate(obls []*Obligation) []*AggObl {
 		out = append(out, m[n])
 	}
 	return out
+}
+
+
+// cmdReplay re-verifies the function named in a replay file and, if the obligation still fails,
+// re-runs the counterexample against the real code.
+func cmdReplay(args []string) {
+	fs := flag.NewFlagSet("replay", flag.ExitOnError)
+	repo := fs.String("repo", "/repo", "repository root")
+	prop := fs.String("property", "", "property id")
+	file := fs.String("file", "", "replay file")
+	fs.Parse(args)
+	data, err := os.ReadFile(*file)
+	if err != nil {
+		fmt.Println("replay:", err)
+		os.Exit(2)
+	}
+	var rec map[string]interface{}
+	if err := json.Unmarshal(data, &rec); err != nil {
+		fmt.Println("replay:", err)
+		os.Exit(2)
+	}
+	name, _ := rec["obligation"].(string)
+	i := strings.Index(name, "#")
+	if i < 0 {
+		fmt.Println("replay: the file records a bounded case or has no obligation name:", name)
+		os.Exit(2)
+	}
+	P, err := LoadProg(*repo, "verif")
+	if err != nil {
+		fmt.Println("replay: load:", err)
+		os.Exit(2)
+	}
+	if err := P.LoadContracts(); err != nil {
+		fmt.Println("replay:", err)
+		os.Exit(2)
+	}
+	solv := NewSolvers(10*time.Second, false)
+	defer solv.Close()
+	key := expandKey(name[:i])
+	rs := P.VerifyAll([]string{key}, VerifyOpts{MaxRank: 4}, solv)
+	for _, a := range aggregate(rs[0].Obls) {
+		if a.Name != name {
+			continue
+		}
+		fmt.Printf("obligation %s: %s\n", a.Name, a.Status)
+		if a.Status == "discharged" {
+			os.Exit(0)
+		}
+		out := *file + ".rerun.json"
+		rep := P.writeReplay(out, *prop, a, "replay", solv)
+		fmt.Printf("VIOLATION property=%s replay=%s obligation=%s", *prop, out, a.Name)
+		if !rep {
+			fmt.Print(" no-failing-input-found")
+		}
+		fmt.Println()
+		os.Exit(1)
+	}
+	fmt.Printf("obligation %s is no longer generated\n", name)
+	os.Exit(1)
 }
